@@ -30,6 +30,7 @@ type RawReq struct {
 	DeclaredCL int         `json:"declared_cl,omitempty"`  // declare this Content-Length instead of BodyLen
 	TimeoutMs  int         `json:"timeout_ms,omitempty"`   // overall (virtual) deadline, default 120 s
 	Compress   bool        `json:"compressible,omitempty"` // compressible request body
+	Instant    bool        `json:"instant,omitempty"`      // no wait is scripted: a non-zero virtual duration is a time anomaly
 }
 
 // Mark says that N body bytes had been read At ns after the request was sent.
@@ -173,7 +174,11 @@ func Do(addr string, rq RawReq) *RawResp {
 	if to == 0 {
 		to = 120 * time.Second
 	}
+	d0 := time.Now()
 	c, err := net.DialTimeout("tcp", addr, 10*time.Second)
+	if IsSim && time.Since(d0) != 0 {
+		FlagAnomaly() // a loopback connect never takes virtual time
+	}
 	if err != nil {
 		res.Err = "dial: " + err.Error()
 		return res
@@ -212,6 +217,9 @@ func Do(addr string, rq RawReq) *RawResp {
 	}
 	res.BodyLen = len(res.Body)
 	res.BodyHash = hashBytes(res.Body)
+	if rq.Instant && IsSim && time.Since(start) != 0 {
+		FlagAnomaly() // the script contains no wait, so the exchange takes 0 virtual ns
+	}
 	return res
 }
 
